@@ -2261,7 +2261,7 @@ func r46ContainmentCountedOverAllVertices(c *core.Ctx) {
 		return v
 	}
 	why := ""
-	vtx := sliceElemLoad(resolveValue(calls[0].Args[1]))
+	vtx := sliceElemLoad(toCaller(calls[0].Args[1]))
 	switch {
 	case vtx == nil:
 		why = "the point tested is not an element of a ring"
